@@ -56,34 +56,34 @@ var vecAssumptions = append([]string{
 
 var props = map[string]*propSpec{
 	"C01": {
-		Level: "exploration",
-		Rule:  "seeded batches from size classes {empty,one,small,wide,deep,mid,stored,tall} over small alphabets x chunk modes {1,2,3,4,5,7,8,16,64,1023,1024,1025,1026} ∪ seeded 1..1024 x build tags {default,vectors}; every (field,term) of the model plus absent ones is queried and every hit compared; distinct = distinct (batch fingerprint, chunk mode); non-trivial = >= 2 documents and >= 1 term with >= 2 hits",
+		Level:       "exploration",
+		Rule:        "seeded batches from size classes {empty,one,small,wide,deep,mid,stored,tall} over small alphabets x chunk modes {1,2,3,4,5,7,8,16,64,1023,1024,1025,1026} ∪ seeded 1..1024 x build tags {default,vectors}; every (field,term) of the model plus absent ones is queried and every hit compared; distinct = distinct (batch fingerprint, chunk mode); non-trivial = >= 2 documents and >= 1 term with >= 2 hits",
 		Assumptions: commonAssumptions,
-		Runs:  simple("C01", "plain"),
+		Runs:        simple("C01", "plain"),
 		Min: mins(map[string]int64{"hits_compared": 20000, "terms_spanning_chunks": 500, "terms_card_gt_1024": 2},
 			map[string]int64{"hits_compared": 400000, "terms_spanning_chunks": 10000, "terms_card_gt_1024": 40}),
 	},
 	"C02": {
-		Level: "exploration",
-		Rule:  "seeded batches (stored-heavy every 4th: repeated names, empty values, 70 kB values, array positions up to 40 long) x chunk modes; every document visited in full, at every early-stop position, DocID, DocNumbers over present/absent/neighbour/above-max/equal-max/duplicate id lists, document numbers beyond Count; in-memory and (every 5th) re-opened; distinct = batch fingerprint; non-trivial = >= 2 documents, one with >= 2 stored values",
+		Level:       "exploration",
+		Rule:        "seeded batches (stored-heavy every 4th: repeated names, empty values, 70 kB values, array positions up to 40 long) x chunk modes; every document visited in full, at every early-stop position, DocID, DocNumbers over present/absent/neighbour/above-max/equal-max/duplicate id lists, document numbers beyond Count; in-memory and (every 5th) re-opened; distinct = batch fingerprint; non-trivial = >= 2 documents, one with >= 2 stored values",
 		Assumptions: commonAssumptions,
-		Runs:  simple("C02", "plain"),
+		Runs:        simple("C02", "plain"),
 		Min: mins(map[string]int64{"stored_callbacks_compared": 5000, "early_stop_positions": 3000, "idlookup_above_max": 100},
 			map[string]int64{"stored_callbacks_compared": 80000, "early_stop_positions": 40000, "idlookup_above_max": 2000}),
 	},
 	"C03": {
-		Level: "exploration",
-		Rule:  "seeded batches x doc-value chunk size (zap.LegacyChunkMode in {1,2,3,4,5,7,8,16,1024}, constant from build to read) x visit disciplines {ascending, descending with reused state, random with repeats, fresh state per visit, field subset, one state alternating between two segments} x {in-memory, re-opened, merged}; distinct = (batch pair fingerprint, chunk size); non-trivial = more documents than the chunk size and >= 2 (doc,field) pairs with doc values",
+		Level:       "exploration",
+		Rule:        "seeded batches x doc-value chunk size (zap.LegacyChunkMode in {1,2,3,4,5,7,8,16,1024}, constant from build to read) x visit disciplines {ascending, descending with reused state, random with repeats, fresh state per visit, field subset, one state alternating between two segments} x {in-memory, re-opened, merged}; distinct = (batch pair fingerprint, chunk size); non-trivial = more documents than the chunk size and >= 2 (doc,field) pairs with doc values",
 		Assumptions: commonAssumptions,
-		Runs:  simple("C03", "plain"),
+		Runs:        simple("C03", "plain"),
 		Min: mins(map[string]int64{"dv_visits": 20000, "dv_chunk_switches": 3000, "dv_state_cross_segment": 1000, "dv_merged_segments": 50},
 			map[string]int64{"dv_visits": 300000, "dv_chunk_switches": 40000, "dv_state_cross_segment": 15000, "dv_merged_segments": 800}),
 	},
 	"C04": {
-		Level: "exploration",
-		Rule:  "seeded batches (with synonyms / vectors) x chunk modes x build tags: Persist vs WriteTo bytes, independent footer parse + IEEE CRC-32 over all preceding bytes, footer accessors, and the full query surface (postings, dictionary iteration, stored, ids, doc values, thesauri, vectors) of both the in-memory and the re-opened segment against the model; distinct = (batch fingerprint, chunk mode); non-trivial = >= 2 documents and a multi-document term",
+		Level:       "exploration",
+		Rule:        "seeded batches (with synonyms / vectors) x chunk modes x build tags: Persist vs WriteTo bytes, independent footer parse + IEEE CRC-32 over all preceding bytes, footer accessors, and the full query surface (postings, dictionary iteration, stored, ids, doc values, thesauri, vectors) of both the in-memory and the re-opened segment against the model; distinct = (batch fingerprint, chunk mode); non-trivial = >= 2 documents and a multi-document term",
 		Assumptions: commonAssumptions,
-		Runs:  simple("C04", "plain"),
+		Runs:        simple("C04", "plain"),
 		Min: mins(map[string]int64{"files_compared": 300, "footers_checked": 300},
 			map[string]int64{"files_compared": 5000, "footers_checked": 5000}),
 	},
